@@ -151,7 +151,12 @@ func runC03(c *rt.Ctx) {
 										return
 									}
 									if proto == "text" && !c.Thorough() && (p0 != 0 || p1 != 1 || iname != "both") {
-										continue
+										// (quick tier: the text protocol on two different ports; on one port only
+										// the pairs with a multi-key get, whose terminator the wrapper steers
+										// with state it keeps per connection)
+										if !(p0 == p1 && iname == "both" && (o0.Kind == "mget" || o1.Kind == "mget")) {
+											continue
+										}
 									}
 									sc := ConcScenario{Harness: "C03", Advances: 1, Cfg: cfg, Init: init, Threads: []ConcThread{{Port: p0, Ops: []wire.Op{o0}}, {Port: p1, Ops: []wire.Op{o1}}}}
 									explore(sc, -1)
